@@ -789,3 +789,72 @@ def _explore_sharded(mach, entry, setup, monitor, max_states, nworkers):
             res.edges += pc['edges']
             res.seen.update(pc['seen'])
     return res
+
+
+# ------------------------------------------------------------------ concrete evaluation from source (E9 tables)
+
+def all_reachable(irp, entry):
+    out, st, seen = [], [entry], set()
+    while st:
+        n = st.pop()
+        if n in seen or n not in irp.funcs:
+            continue
+        seen.add(n)
+        out.append(n)
+        for b in irp.funcs[n].blocks:
+            for i in b.ins:
+                if i.op == 'call':
+                    t = call_target(i)
+                    if t:
+                        st.append(t)
+    return out
+
+
+class Concrete(object):
+    """deterministic evaluation of a library function from its source on a fully known input: the E1 machine
+    with one symbol class per character value, every reachable callee interpreted.  No compiled code runs."""
+
+    def __init__(self, ctx, suf, entry):
+        self.ctx, self.suf, self.entry = ctx, suf, entry
+        syms = Alphabet.all_symbols(suf)
+        self.al = Alphabet([[x] for x in syms], suf)
+        funcs = all_reachable(ctx.irp, entry)
+        self.mach = Runner(ctx, suf, self.al, funcs, {'memset': sum_memset, 'memcpy': sum_memcpy}, nul_terminated=False)
+        self.mach.coarse_regs = False
+        self.mach.dmax = 4096
+        self.mach.input_writable = True
+        self.mach.harness |= {'OUT', 'OUTEND', 'FIRSTP', 'LASTP'}
+
+    def int_of(self, v):
+        """integer value of a machine value holding a character or an integer"""
+        if v is None:
+            return None
+        if v[0] == 'i':
+            return v[1]
+        if v[0] == 'c':
+            return self.al.value_of(sorted(self.al.sets[v[1]])[0])
+        return None
+
+    def call(self, args, text=(), env=None):
+        """text: character values known to lie before the end; pointers ('p', -len(text)+k) address them"""
+        st = St()
+        st.eof = True
+        st.win = tuple(self.al.of[self.al.sym_of_value(v)] for v in reversed(list(text)))
+        if env:
+            st.env.update(env)
+        self.mach.obs = []
+        self.mach.push_frame(st, self.entry, list(args), None, False, None)
+        obs = []
+        while True:
+            ev = self.mach.run(st)
+            obs += self.mach.obs
+            self.mach.obs = []
+            if ev[0] == 'alloc':
+                self.mach.apply_alloc(st, ev[1], True)
+                st.steps = 0
+                continue
+            break
+        if ev[0] != 'final':
+            raise Imprecise('concrete evaluation of %s stopped at %r' % (self.entry, ev))
+        self.obs = obs
+        return ev[1], st.env
